@@ -536,6 +536,9 @@ func (e *evalCtx) call(t *ast.CallExpr) Val {
 		case "Bool":
 			return boolVal(r)
 		}
+		if strings.HasPrefix(sort, "(Array ") && !strings.Contains(r, "_q") {
+			r = c.atomSort("garr", sort, r)
+		}
 		return mathVal(sort, r)
 	case "entry":
 		// entry(p): the value parameter p had on entry (inside a loop the
